@@ -263,15 +263,15 @@ def Call.isMark : Call π A → Bool
   | .end_ _ => true
   | _ => false
 
-/-- no curve directly follows a `begin` (the case in which the builder-side adapter
-interpolates from stale attributes).  `afterBegin` = the previous call was `begin`. -/
+/-- no curve is the first edge of its sub-path (the case in which the builder-side adapter
+interpolates from stale attributes).  `ab` = a `begin` has been seen and no edge since. -/
 def noCurveAfterBegin : Bool → List (Call π A) → Bool
   | _, [] => true
   | _, .begin _ _ :: r => noCurveAfterBegin true r
   | _, .line _ _ :: r => noCurveAfterBegin false r
   | ab, .quad _ _ _ :: r => !ab && noCurveAfterBegin false r
   | ab, .cubic _ _ _ _ :: r => !ab && noCurveAfterBegin false r
-  | _, .end_ _ :: r => noCurveAfterBegin false r
+  | ab, .end_ _ :: r => noCurveAfterBegin ab r
 
 /-- every endpoint carries exactly `n` attributes -/
 def attrsLen (n : Nat) : List (Call π (List A)) → Bool
